@@ -28,6 +28,7 @@
  */
 
 #include <rfb/rfb.h>
+#include "private.h"
 
 /* RFB 3.8 clients are well informed */
 void rfbClientSendString(rfbClientPtr cl, const char *reason);
@@ -119,7 +120,7 @@ rfbVncAuthSendChallenge(rfbClientPtr cl)
     }
     
     /* Dispatch client input to rfbVncAuthProcessResponse. */
-    cl->state = RFB_AUTHENTICATION;
+    rfbSetClientHandshakeState(cl, RFB_AUTHENTICATION);
 }
 
 /*
@@ -165,7 +166,7 @@ rfbVncAuthNone(rfbClientPtr cl)
             return;
         }
     }
-    cl->state = cl->protocolMinorVersion == 889 ? RFB_INITIALISATION_SHARED : RFB_INITIALISATION;
+    rfbSetClientHandshakeState(cl, cl->protocolMinorVersion == 889 ? RFB_INITIALISATION_SHARED : RFB_INITIALISATION);
     if (cl->state == RFB_INITIALISATION_SHARED)
         /* In this case we must call rfbProcessClientMessage now because
          * otherwise we would hang waiting for data to be received from the
@@ -253,7 +254,7 @@ rfbSendSecurityTypeList(rfbClientPtr cl, int primaryType)
     }
 
     /* Dispatch client input to rfbProcessClientSecurityType. */
-    cl->state = RFB_SECURITY_TYPE;
+    rfbSetClientHandshakeState(cl, RFB_SECURITY_TYPE);
 }
 
 
@@ -279,7 +280,7 @@ rfbSendSecurityType(rfbClientPtr cl, int32_t securityType)
     switch (securityType) {
     case rfbSecTypeNone:
 	/* Dispatch client input to rfbProcessClientInitMessage. */
-	cl->state = RFB_INITIALISATION;
+	rfbSetClientHandshakeState(cl, RFB_INITIALISATION);
 	break;
     case rfbSecTypeVncAuth:
 	/* Begin the standard VNC authentication procedure. */
@@ -435,5 +436,5 @@ rfbAuthProcessClientMessage(rfbClientPtr cl)
         return;
     }
 
-    cl->state = RFB_INITIALISATION;
+    rfbSetClientHandshakeState(cl, RFB_INITIALISATION);
 }
